@@ -22,4 +22,5 @@ INVARIANT RecoveryNeverSuppressed
 PROPERTY RecoveryAnnounced
 PROPERTY Isolation
 PROPERTY Frame
+PROPERTY ScopeIndependence
 CHECK_DEADLOCK FALSE
